@@ -158,6 +158,9 @@ def resolve_jobs(prop, tier):
                         required_witness=["end-of-scenario", "high-index-full-match"]))
     for shape in RESOLVE_SHAPES_QUICK:
         jobs.append(shape_job(prop, shape, harness="r_resolve.c", extra={"G": 2, "G1_START": 2}, samples=200000))
+    # a command half large enough (16 bytes) to hold a READ / TEST answer of a command with a variable: the served request type shows in the output
+    for shape in ("ATn?L", "ATn=?L"):
+        jobs.append(shape_job(prop, shape, harness="r_resolve.c", cap=(28, 32), extra={"G": 2, "G1_START": 2}, samples=200000, name="cap16." + shape.replace("?", "q").replace("=", "e")))
     if tier == "thorough":
         # five commands (a second byte lane of the match table), names up to 3 characters
         for shape in ("ATnL", "ATnnL", "ATn?L", "ATn=aL", "ATnn=?L"):
@@ -383,7 +386,7 @@ def twin_job(prop, mode, shape, r=2, cap=(12, 24), **kw):
         kw.setdefault("lines", 2)
     j = shape_job(prop, shape, harness="r_twin.c", cap=cap, extra=extra, name="m%d.%s" % (mode, shape.replace("?", "q").replace("=", "e")), **kw)
     if mode == 1:
-        j.defines["N"] = int(j.defines["N"]) + 2 * r
+        j.defines["N"] = int(j.defines["N"]) + 2 * r + 1   # + the chunk-boundary refusal
         j.unwind = max(j.unwind, int(j.defines["N"]) + 2)
     j.unwind = max(j.unwind, 66)     # the comparison loops run over the output log (<= 64 bytes)
     j.solver = "cadical"             # in-process and incremental: witness goals ride in the same run (measured 150 s vs 345 s with the external solver + twin)
@@ -420,7 +423,7 @@ def c20(tier):
 def c12(tier):
     jobs = step_jobs("C12", tier)
     if tier == "quick":
-        jobs += [twin_job("C12", 1, sh, r=1) for sh in ("ATnL",)]
+        jobs += [twin_job("C12", 1, sh, r=1) for sh in ("ATnL", "gxL")]   # gxL: a malformed line (ERROR state) with a possible CR before the LF
     else:
         jobs += [twin_job("C12", 1, sh, r=2) for sh in ("ATnL", "ATn?L", "ATn=aL", "gxL")]
     return with_prop("C12", jobs)
